@@ -347,6 +347,26 @@ func RunC13(d *Driver) *Report {
 			evalStream(r, d, "tests", src, o, parts, true, nil)
 		}
 	}
+	// the message of a failed test (docs/builtins.md: "a message or a format string with arguments"): with three
+	// arguments the message is reported as written, also when it contains `%`; with more it is what sprintf makes of them
+	for _, msg := range []string{"plain", "coverage must be 100%", "%v", "use %v here", "%%", "%d%s", "50% of %v and %", "%!", "ünï %q"} {
+		src := "test 1 2 " + strconv.Quote(msg) + "\n"
+		res, _, _ := RunReal(src, RunOpts{FailFast: true})
+		r.Count("test-message:"+src, true)
+		if !strings.Contains(res.ErrText, "("+msg+")") {
+			r.Violation(Case{Stream: "test-message", Input: src, Real: res.Class + " " + res.ErrText, Spec: "the failed test is reported with the message as written: ... (" + msg + ")"})
+		}
+		for _, args := range []string{"7", "\"x\" 2", "[1 2] true"} {
+			src2 := "test 1 2 " + strconv.Quote(msg) + " " + args + "\n"
+			res2, _, _ := RunReal(src2, RunOpts{FailFast: true})
+			res3, _, _ := RunReal("print (sprintf "+strconv.Quote(msg)+" "+args+")\n", RunOpts{})
+			r.Count("test-message:"+src2, true)
+			want := strings.TrimSuffix(res3.Out, "\n")
+			if res3.Class == "ok" && !strings.Contains(res2.ErrText, "("+want+")") {
+				r.Violation(Case{Stream: "test-message", Input: src2, Real: res2.Class + " " + res2.ErrText, Spec: "the failed test is reported with the formatted message, as sprintf formats it: ... (" + want + ")"})
+			}
+		}
+	}
 	// documentation examples
 	nd := 0
 	for _, f := range []string{"docs/builtins.md", "docs/spec.md"} {
@@ -491,7 +511,7 @@ func c14Programs() []string {
 		"print \"a\"\nprint \"b\"\nprint \"c\"\n",
 		"i := 0\nwhile true\n    i = i + 1\n    print i\nend\n",
 		"for i := range 1000000\n    print i\nend\n",
-		"for i := range 1000000\n    // nothing\nend\nprint \"done\"\n",
+		"for range 1000000\n    // nothing\nend\nprint \"done\"\n",
 		"for range 1000000\n\nend\n",
 		"while true\n    // spin\nend\n",
 		"func f n:num\n    print n\n    f n+1\nend\nf 0\n",
@@ -503,8 +523,22 @@ func c14Programs() []string {
 		"func g:num n:num\n    if n <= 0\n        return 0\n    end\n    return n + (g n-1)\nend\nprint (g 10)\nprint (g 3)\n",
 		"on key k:string\n    print k\nend\nprint \"main\"\n",
 		"x := 0\nwhile x < 3\n    x = x + 1\n    if x == 2\n        print \"two\"\n    else if x == 3\n        print \"three\"\n    else\n        print \"other\"\n    end\nend\nmove 1 2\nline 3 4\ncircle 5\n",
+		// a stop inside EVERY sub-expression position: each operand is a call that yields and prints, each statement
+		// prints after its operands; stopped inside an operand, nothing of the enclosing expression or statement may happen
+		c14Pre + "print \"bin\" (f 1)+(f 2)*(f 3) (f 1)<(f 2) ((t 1) and (t 2)) ((u 1) or (t 2)) ((u 3) and (t 4)) ((t 5) or (t 6))\nprint \"un\" -(f 1) !(t 1)\n",
+		c14Pre + "print \"idx\" (a 1)[(f 1)] (s 1)[(f 2)] (m 1)[(k 1)] (m 2).k\nprint \"after\"\n",
+		c14Pre + "print \"slice\" (a 1)[(f 1):] (a 2)[:(f 2)] (a 3)[(f 1):(f 2)] (s 1)[(f 1):] (s 2)[:(f 1)] (a 4)[:]\nprint \"after\"\n",
+		c14Pre + "arr := [1 2 3 4]\ni := 3\nprint \"tail\" arr[(f i):]\nprint \"done\"\n",
+		c14Pre + "print \"lit\" [(f 1) (f 2) [(f 3)]] {p:(f 1) q:[(f 2)]}\nx:any\nx = (f 4)\nprint \"assert\" x.(num) (y 1).(num)\nprint \"after\"\n",
+		c14Pre + "arr := [1 2 3]\narr[(f 1)] = (f 7)\nprint arr\nmp := {k:1}\nmp[(k 1)] = (f 8)\nmp.k = (f 9)\nprint mp\nv := (f 5)\nv = (f 6)\nprint v\n",
+		c14Pre + "if (t 1)\n    print \"then\"\nelse if (t 2)\n    print \"elif\"\nend\nif (u 1)\n    print \"then\"\nelse if (u 2)\n    print \"elif\"\nelse\n    print \"else\"\nend\nn := 0\nwhile (lt n 2)\n    n = n + 1\nend\nprint \"after\" n\n",
+		c14Pre + "for i := range (f 1) (f 4) (f 2)\n    print \"i\" i\nend\nfor e := range (a 1)\n    print \"e\" e\nend\nfor c := range (s 1)\n    print \"c\" c\nend\nfor q := range (m 1)\n    print \"q\" q\nend\nprint \"after\"\n",
+		c14Pre + "func g:num p:num q:num\n    print \"g\" p q\n    return (f p) + (f q)\nend\nprint \"call\" (g (f 1) (f 2)) (len (a 1)) (sprint (f 1) (f 2))\nprint \"after\"\n",
 	}
 }
+
+// c14Pre: functions that yield (they are calls with a body) and print when they run: f num, t true, u false, lt, a array, s string, m map, k key, y any
+const c14Pre = "func f:num n:num\n    print \"f\" n\n    return n\nend\nfunc t:bool n:num\n    print \"t\" n\n    return true\nend\nfunc u:bool n:num\n    print \"u\" n\n    return false\nend\nfunc lt:bool p:num q:num\n    print \"lt\" p q\n    return p < q\nend\nfunc a:[]num n:num\n    print \"a\" n\n    return [10 20 30 40]\nend\nfunc s:string n:num\n    print \"s\" n\n    return \"hello\"\nend\nfunc m:{}num n:num\n    print \"m\" n\n    return {k:1 j:2}\nend\nfunc k:string n:num\n    print \"k\" n\n    return \"k\"\nend\nfunc y:any n:num\n    print \"y\" n\n    return n\nend\n"
 
 // RunC14 : stop at every yield.
 func RunC14(d *Driver) *Report {
@@ -524,8 +558,12 @@ func RunC14(d *Driver) *Report {
 	r.Rule = fmt.Sprintf("%d programs (terminating and endless loops, recursion, comment-only loop bodies, tests, events) x every yield k up to min(total yields, %d), incl. three programs whose event handlers loop, with the stop raised at every yield of every handler run: the platform raises the stop flag during yield k. Direct checks on the real run: result is 'stopped', the effects are a prefix of the uninterrupted run's effects (plus at most the test summary), at least one yield between two consecutive effects inside loops; and class, effects and the yield count are compared with the Lean model stopped at the same yield. Non-trivial = distinct (program, k)", len(progs), cap)
 	parts := []string{"class", "trace", "yields"}
 	total := 0
-	for _, src := range progs {
+	nfixed := len(c14Programs())
+	for pi, src := range progs {
 		full := CompareEval(d, src, RunOpts{MaxYield: cap + 50})
+		if full.Skipped == "rejected" && pi < nfixed {
+			r.Disagree(Case{Stream: "stop", Input: src, Real: "rejected: " + full.Real.ParseErr, Note: "harness program should be accepted"})
+		}
 		if full.Skipped == "rejected" || full.Skipped == "unserialisable" {
 			continue
 		}
